@@ -11,7 +11,7 @@ CHECKS = {
          "Program generation: type-definition trees (depth <= 3) covering every attribute combination the property lists are emitted as source into scratch crates with path dependencies on /repo, compiled, executed, and the recorded (name, kind, value, unit) list and sample-group pairs compared with a reference interpreter evaluated on the same tree; failures are shrunk by deleting fields/variants/attributes with one rustc run per step.",
          "Case conversion itself is delegated to the Inflector crate (the documented engine); what is tested is the composition. Programs are sampled; compile errors are inconclusive, never violations. One known finding (flatten prefix missing from sample-group names) is listed in known_findings.json because the macro's own snapshot tests pin the defective output.",
          "DESIGN.md §2 C07"),
- "C10": ("stateful proptest (input/flush/guard sequences) against a reference map per flush epoch; real producer threads for the worker sink; termination by counting flush() calls on a probe",
+ "C10": ("stateful proptest (input/flush/guard sequences) against a reference map per flush epoch; real producer threads for the worker sink; termination by counting flush() calls on a probe; libFuzzer target agg_oracle with the keyed/tee oracle inside (thorough tier)",
          "Generated sequences of keyed inputs, flushes and merge-on-drop guards through KeyedAggregator, TeeSink (incl. a hand-written colliding-hash Cow key and a non-aggregating branch), WorkerSink with 1-4 producers and a 1 h / 0 / 100 us / 2 ms periodic flush, embedded Aggregate and MutexSink: one aggregate per key per flush with exact sums / distributions / keep-last, conservation over all epochs, flush barrier, worker termination after the last handle is dropped.",
          "Reference accumulator is a BTreeMap written from the docs; worker/producer interleavings sampled natively.",
          "DESIGN.md §2 C10"),
@@ -75,7 +75,7 @@ CHECKS = {
          "Fault injection by generated writer scripts (accept k bytes of a vectored write for every k, Interrupted / Ok(0) / hard error at every call index, flush errors) on all record shapes; bytes received must be exactly the reference lines (or complete lines + a prefix on a hard error); sink level: every later entry reaches every (tee'd) stream exactly once, no panic.",
          "Trusts the scripted writer/stream (harness-owned), reference = same entry through a fresh formatter and a perfect writer. The BackgroundQueue half of the sink clause reuses the C01 driver and oracle (sub-check c16-background-queue).",
          "DESIGN.md §2 C16"),
- "C11": ("proptest value multisets + exhaustive bucket-boundary sweep; run-length pairing oracle; differential atomic vs non-atomic; re-aggregation fixpoint",
+ "C11": ("proptest value multisets + exhaustive bucket-boundary sweep; run-length pairing oracle; differential atomic vs non-atomic; re-aggregation fixpoint; libFuzzer target hist_oracle with the same oracle inside (thorough tier)",
          "Generated-input search: value multisets built on the 976-bucket layout (every boundary and neighbour exhaustively), repeated observations up to 2^40 occurrences, u64/f64/Duration sources with unit conversion, 1-8 concurrent recorders; oracle = count conservation, per-observation error bound by sorted run-length pairing, bit-identical atomic/non-atomic outputs, exact sort-and-merge output, re-aggregation fixpoint (bitwise for the exponential strategies, rank-wise within 4 ulps of total/occurrences for sort-and-merge).",
          "Trusts the harness' own bucket-layout computation (only used to aim inputs) and f64 arithmetic for the bound; concurrent add_value interleavings are sampled natively.",
          "DESIGN.md §2 C11"),
@@ -103,14 +103,14 @@ manifest = {
    "add_only": True,
  },
  "engines": [
-   {"name": "vh-fuzz", "path": "harness/vh/fuzz", "serves_properties": ["C02", "C16"],
-    "kind_free_text": "cargo-fuzz / libFuzzer targets emf_oracle, emf_sequence, io_faults: bytes decoded with arbitrary::Unstructured into the same case types the proptest checks use, the same oracle functions run inside the target (a violated oracle panics with a VIOLATION text); driven by bin/fuzzrun.sh from the thorough tier"},
+   {"name": "vh-fuzz", "path": "harness/vh/fuzz", "serves_properties": ["C02", "C10", "C11", "C16"],
+    "kind_free_text": "cargo-fuzz / libFuzzer targets emf_oracle, emf_sequence, io_faults, hist_oracle, agg_oracle: bytes decoded with arbitrary::Unstructured into the same case types the proptest checks use, the same oracle functions run inside the target (a violated oracle panics with a VIOLATION text); driven by bin/fuzzrun.sh from the thorough tier"},
    {"name": "vh", "path": "harness/vh", "serves_properties": sorted(BUILT),
     "kind_free_text": "proptest 1.11 TestRunner driven from a binary (vcheck): fixed seeds from VERIF_SEED, classification + distinct non-trivial counting, shrinking, JSON replay files, known-findings, evidence writer; reference models / strict JSON / recording writers as oracles"},
  ],
  "checks": [],
  "not_applicable": [],
- "notes": "bin/vcheck <ID> <tier> rebuilds the harness against /repo's working tree (cargo path dependencies) before every run. Exit 0 held / 1 VIOLATION / 2 inconclusive. Replays under replays/regress/<ID>/ run first on every invocation. The thorough tier of C02 and C16 additionally runs libFuzzer campaigns (cargo +nightly fuzz, harness/vh/fuzz, oracle inside the target; VERIF_FUZZ_RUNS executions each, default 1.5 M).",
+ "notes": "bin/vcheck <ID> <tier> rebuilds the harness against /repo's working tree (cargo path dependencies) before every run. Exit 0 held / 1 VIOLATION / 2 inconclusive. Replays under replays/regress/<ID>/ run first on every invocation. The thorough tier of C02, C10, C11 and C16 additionally runs libFuzzer campaigns (cargo +nightly fuzz, harness/vh/fuzz, oracle inside the target; VERIF_FUZZ_RUNS executions each, default 1.5 M).",
 }
 for pid in ALL:
     if pid in CHECKS:
